@@ -561,9 +561,9 @@ def run(ctx):
     from checks import pair_ops  # noqa: PLC0415
     from mc import pairs  # noqa: PLC0415
 
-    ops = [["fn", n, p] for n, p in (("SecsS01F03", 0), ("SecsS05F01", 1), ("SecsS01F13", 0), ("SecsS02F33", 0))]
+    ops = [["lookup_shared", [[1, 1], [6, 12], [99, 1]]], ["lookup_shared", [[14, 19], [1, 2]]]] + [["fn", n, p] for n, p in (("SecsS01F03", 0), ("SecsS05F01", 1), ("SecsS01F13", 0), ("SecsS02F33", 0))]
     # (the leaf codecs are line-traced by C01/C02's own pair parts; here the layers specific to functions: catalogue, SFDL reader, containers)
-    pair_execs = pairs.run_part(ctx, ops if ctx.thorough else ops[:3], "C03", 1,
+    pair_execs = pairs.run_part(ctx, ops if ctx.thorough else ops[:4], "C03", 1,
                                 prefixes=("secsgem.secs.functions", "secsgem.secs.variables.functions", "secsgem.secs.variables.sfdl_tokenizer",
                                           "secsgem.secs.variables.dynamic", "secsgem.secs.variables.list_type", "secsgem.secs.variables.array",
                                           "secsgem.secs.data_items"))
